@@ -8,3 +8,9 @@ See Also:
 from .server import *
 
 from .._generated.pub import *
+
+# The star-imports above also copy module attributes of the generated packages, which would shadow
+# the submodules of the same name. Bind the real submodules last.
+import sys as _sys
+
+server = _sys.modules[__name__ + ".server"]
